@@ -75,6 +75,9 @@ fn variants(rng: &mut Rng, k: u32) -> Vec<(&'static str, String)> {
         ("kill-child", "{ nap 200; echo never >nf; } & p=$!; kill -s TERM $p; wait $p; echo \"?=$?\"".to_string()),
         ("umask", format!("umask {}; echo w{k} >m{k}; umask 022", rng.pick(&["027", "077", "002"]))),
         ("dir-as-file", format!("echo w{k} >d; echo \"?=$?\"")),
+        ("dir-as-file", format!("echo w{k} >>d; echo \"?=$?\"; echo v{k} >|empty; echo \"?=$?\"")),
+        ("dir-read-write", format!("echo w{k} 1<>d; echo \"?=$?\"; <>empty; echo \"?=$?\"")),
+        ("dir-read-write", "( exec 3<>d; echo \"in ?=$?\" ); echo \"?=$?\"".to_string()),
         ("missing-input", "cat <missing; echo \"?=$?\"".to_string()),
         ("here-doc", format!("cat <<EOF\nh{k} $HOME_NOT_SET\nEOF")),
         ("rw-open", format!("echo w{k} 1<>{}", rng.pick(&["f1", "e1"]))),
@@ -112,11 +115,26 @@ fn variants(rng: &mut Rng, k: u32) -> Vec<(&'static str, String)> {
         ("exec-heredoc-fd", format!("exec {fd}<<EOF\nhd{k} one\nhd{k} two\nEOF\nread x <&{fd}; echo \"[$x] ?=$?\"; cat <&{fd}; exec {fd}<&-; echo \"?=$?\"")),
         ("exec-heredoc-fd", format!("exec 3<<EOF\nlow{k}\nEOF\nread x <&3; echo \"[$x] ?=$?\"; exec 3<&-; echo \"?=$?\"")),
         ("exec-read-fd", format!("exec {fd}<e1; read y <&{fd}; echo \"[$y]\"; exec {fd}<&-")),
-        ("exec-persist", format!("exec >f1; echo hidden{k}; exec >&2; echo \"?=$?\" >&2 2>/dev/null")),
+        ("exec-persist", format!("exec 3>&1 >f1; echo hidden{k}; exec >&3 3>&-; echo back{k}; cat f1")),
         ("dup-close-combo", format!("echo w{k} 3>f2 >&3 3>&-; cat f2")),
         ("function-redir", format!("fn{k}() {{ echo in{k}; echo err{k} >&2; }}; fn{k} >f1 2>f2; cat f1 f2")),
         ("compound-redir", format!("for i in 1 2; do echo i$i; done >f1; while read l; do echo \"l=$l\"; done <f1")),
-        ("signal-exit-status", "( kill -s KILL $(exec 3>&1; ( mypid >&3 ) ) ) 2>/dev/null; echo done".to_string()),
+        ("dup-from-rw", format!("exec {fd}<>f1; echo w{k} >&{fd}; echo \"?=$?\"; exec {fd}>&-; cat f1")),
+        ("dup-from-rw", format!("exec {fd}<>e1; read x <&{fd}; echo \"[$x] ?=$?\"; echo z{k} >&{fd}; echo \"?=$?\"; exec {fd}<&-; cat e1")),
+        ("dup-from-wo", format!("exec {fd}>f2; read x <&{fd}; echo \"?=$?\"; echo w{k} >&{fd}; exec {fd}>&-; cat f2")),
+        ("dup-from-ro", format!("exec {fd}<e1; echo w{k} >&{fd}; echo \"?=$?\"; read y <&{fd}; echo \"[$y]\"; exec {fd}<&-")),
+        ("dup-from-append", format!("exec {fd}>>f1; echo a{k} >&{fd}; cat <&{fd}; echo \"?=$?\"; exec {fd}>&-")),
+        ("append-across-processes", format!("exec 3>>f2; ( echo child{k} >&3 ); echo parent{k} >&3; {{ echo job{k} >&3; }} & wait; exec 3>&-; cat f2")),
+        ("write-offset-across-processes", format!("exec 3>f1; ( echo child{k} >&3 ); echo parent{k} >&3; exec 3>&-; cat f1")),
+        ("dup-onto-itself", format!("echo w{k} 1>&1; echo v{k} 2>&2 >&2; echo \"?=$?\"")),
+        ("close-closed", "exec 7>&-; echo \"?=$?\"; exec 7<&-; echo \"?=$?\"".to_string()),
+        ("umask-print", format!("umask; umask -S; umask {}; umask; umask -S; umask 022", rng.pick(&["027", "077", "u=rwx,g=rx,o="]))),
+        ("selfkill-status", format!("( echo s{k}; selfkill {}; echo NEVER ); echo \"?=$?\"", rng.pick(&["TERM", "KILL", "HUP", "INT", "QUIT"]))),
+        ("selfkill-status", format!("v=$(echo s{k}; selfkill {}); echo \"[$v] ?=$?\"", rng.pick(&["TERM", "KILL", "HUP"]))),
+        ("kill-child", format!("{{ nap 200; echo never >nf; }} & p=$!; kill -s {} $p; wait $p; echo \"?=$?\"", rng.pick(&["KILL", "HUP", "INT"]))),
+        ("excl-create", format!("set -C; echo w{k} >newf{k}; echo \"?=$?\"; echo v{k} >newf{k}; echo \"?=$?\"; set +C; cat newf{k}")),
+        ("trunc-rw", format!("echo long-content-{k} >f1; echo s 1<>f1; cat f1; echo t >|f1; cat f1")),
+        ("readdir-after-create", format!("echo w{k} >d/sub/n{k}; echo d/sub/*; echo w >empty/x{k}; echo empty/*")),
     ]
 }
 
@@ -545,7 +563,7 @@ impl Prop for C19 {
     fn assumptions(&self) -> Vec<String> {
         vec![
             "the real execution is observed, not simulated; it is confined to programs the simulator has shown schedule-independent, and run twice".into(),
-            "not covered (the simulated kernel does not claim to model them): execve of external programs, SIGPIPE, terminals/sessions, wall-clock timing, permission-denied cases (the sandbox runs as root), pids, wording of error messages (stderr is compared for emptiness only)".into(),
+            "not covered (the simulated kernel does not claim to model them): execve of external programs, SIGPIPE, terminals/sessions, wall-clock timing, permission-denied cases (the sandbox runs as root), pids, wording of error messages (stderr is compared for emptiness only), the NUMBERS of signals other than HUP INT QUIT ABRT KILL ALRM TERM (the simulated system numbers the others from 101; an exit status 384+n of a child killed by such a signal therefore differs by construction, so only the POSIX-numbered signals are used where the number is visible)".into(),
             "known divergences are listed in known_findings.txt by their specific operation".into(),
         ]
     }
